@@ -49,7 +49,8 @@ InstanceOK(inst) ==
   /\ \A o \in 1..NOps(inst) :
         LET el == {m \in MachSet(inst) : Dur(inst, m, o) > 0}
         IN IF inst.jssp THEN Cardinality(el) = 1 ELSE el # {}
-  /\ \A o \in (NOps(inst) + 1)..inst.P : \A m \in MachSet(inst) : Dur(inst, m, o) = 0
+\* nothing is demanded of the padded columns NOps+1..P: FJSPGenerator clears them,
+\* JSSPGenerator leaves random processing times there; the problem never looks at them
 
 (* ------------------------- PART 1: ground truth ------------------------- *)
 (* ---- 1a. what a valid schedule is (C07), on explicit per-operation data ----
